@@ -258,7 +258,7 @@ Qed.
 (* [First] with [f1] units of fuel for the loop inside [getValue] and [f2] for the loop that
    moves the iterator on behaves like [First], and [f1 + f2 <= 1 + pinned] is enough *)
 Lemma R_first_cost ch s o : R s o ->
-  exists f1 f2, (f1 + f2 <= 1 + count_deleted s)%nat /\
+  exists f1 f2, (f1 + f2 <= 1 + count_deleted s)%nat /\ (1 <= f2)%nat /\
     i_first_f f1 f2 s = i_first s /\ exists r, i_do ch s OFirst = Ok r.
 Proof.
   intros HR. pose proof HR as (c & zs & Hrepr & HR2).
@@ -283,10 +283,14 @@ Proof.
   cbn [entries o1] in Hgv, Hirel. fold es in Hgv, Hirel. set (j := nlive es 0) in *.
   set (r1 := cnt (citers c1)). set (its2 := aset name j (citers c1)) in *. set (r2 := cnt its2) in *.
   assert (HC1 : cells c1 = cells_from r1 0 es) by exact (r2_cells _ _ HR1).
+  assert (Hst0j : (st0 <= j)%nat).
+  { destruct (trel_lookup _ _ _ _ _ (r2_iters _ _ HR1) Hs0) as (p' & Hp' & [Hb Hd]).
+    assert (p' = 0%nat) by congruence. subst p'. cbn [entries o1] in Hb, Hd. fold es in Hb, Hd.
+    unfold j. rewrite (nlive_skip_dead es 0 st0 ltac:(lia) Hd). apply nlive_bounds. lia. }
   (* the fuel *)
   set (f1 := length (filter (in_range st0 j) (cells c1))).
   set (f2 := S (run_len j (nlive es (S j)) (cells c1))).
-  exists f1, f2. split; [|split; [|exact Hdo]].
+  exists f1, f2. split; [|split; [unfold f2; lia|split; [|exact Hdo]]].
   { (* f1 + f2 <= 1 + pinned *)
     rewrite (proj1 (count_deleted_pinned _ _ _ Hrepr)). unfold c_pinned.
     rewrite <- (filter_st_cupd (fun st => nstate_eqb st StDeleted) st0 (cset_ref (c_ref hd0 + 1)) (cells c)) by reflexivity.
@@ -356,7 +360,7 @@ Proof.
   unfold i_itnext_f, i_itnext. rewrite Hit1. cbn [deref bind]. rewrite Egv.
   (* after getValue *)
   rewrite HC1 in Hgv. rewrite <- HC1, Hz1, <- Hs in Hgv.
-  destruct s1 as [h1 v1 hd1 l1 pl1 it1 a1]. cbn [heap_of head pool core_of] in *.
+  destruct s1 as [h1 v1 hd1 l1 pl1 it1 a1]. unfold core_of in *. cbn [heap_of head pool] in *.
   destruct (getvalue_sim _ _ _ _ _ _ _ _ Hw1 Hin Hrf Hgv) as (h' & hd' & pl' & p1 & zs' & Hgi & Hcs & Hw' & _ & (c2 & Hin2 & Hs2 & Hrf2)).
   rewrite Hgi. cbn [bind fst].
   destruct (get h' p1) as [n1| |]; try reflexivity. cbn [bind].
@@ -367,23 +371,23 @@ Proof.
     - pose proof (filter_len_le (fun c0 => between j (nlive es (S j)) (c_stamp c0)) (cells_from r2 0 es)). lia.
     - intros x Hx. unfold r2, its2. rewrite (cnt_aset name st0 j (citers c1) x (r2_names _ _ HR1) Hs0).
       unfold move, bump, r1. destruct Hirel as [Hjb _].
-      destruct (Nat.eqb_spec x j); [lia|]. destruct (Nat.eqb_spec x st0); [|reflexivity].
-      destruct (trel_lookup _ _ _ _ _ (r2_iters _ _ HR1) Hs0) as (p' & Hp' & [Hb _]). lia. }
+      destruct (Nat.eqb_spec x j); [lia|]. destruct (Nat.eqb_spec x st0); [lia|reflexivity]. }
   assert (En : i_next f2 (h', hd', pl') p1 = i_next (fuel_of h') (h', hd', pl') p1).
-  { eapply (i_next_small f2 h' hd' pl' zs' p1 c2); [exact Hf2le|exact Hw'|exact Hin2|exact Hrf2|].
-    rewrite <- Hcs, Hs2.
-    assert (Hs2' : alookup name its2 = Some j).
-    { unfold its2. apply alookup_aset_same. rewrite Hits1. left. reflexivity. }
-    assert (Hr2j : 1 <= r2 j) by (eapply cnt_in, alookup_in; exact Hs2').
-    destruct (Nat.eq_dec j (length es)) as [Hend|Hne].
-    - unfold f2. cbn [c_next]. rewrite (cfind_end' _ _ _ Hend). cbn [bind last_cell c_st]. reflexivity.
-    - destruct Hirel as [Hjb _]. destruct (nlive_some es 0) as (e & _ & Hn & Hl); [fold j; lia|]. fold j in Hn.
-      apply (c_next_cells_tight f2 r2 j es e (cnt_nonneg _) Hn Hr2j).
-      unfold f2, run_len. rewrite HC1, (filter_between_ext r1 r2 j (nlive es (S j)) es 0%nat); [lia|].
-      intros x Hx. unfold r2, its2. rewrite (cnt_aset name st0 j (citers c1) x (r2_names _ _ HR1) Hs0).
-      unfold move, bump, r1.
-      destruct (Nat.eqb_spec x j); [lia|]. destruct (Nat.eqb_spec x st0); [|reflexivity].
-      destruct (trel_lookup _ _ _ _ _ (r2_iters _ _ HR1) Hs0) as (p' & Hp' & [Hb _]). lia. }
+  { assert (Hcn : exists cs' st', c_next f2 (map snd zs') (c_stamp c2) = Ok (cs', st')).
+    { rewrite <- Hcs, Hs2.
+      assert (Hs2' : alookup name its2 = Some j).
+      { unfold its2. apply alookup_aset_same. rewrite Hits1. left. reflexivity. }
+      assert (Hr2j : 1 <= r2 j) by (eapply cnt_in, alookup_in; exact Hs2').
+      destruct (Nat.eq_dec j (length es)) as [Hend|Hne].
+      - unfold f2. cbn [c_next]. rewrite (cfind_end' _ _ _ Hend). cbn [bind last_cell c_st]. eauto.
+      - destruct Hirel as [Hjb _]. destruct (nlive_some es 0) as (e & _ & Hn & Hl); [fold j; lia|]. fold j in Hn.
+        eexists. eexists. apply (c_next_cells_tight f2 r2 j es e (cnt_nonneg _) Hn Hr2j).
+        unfold f2, run_len. rewrite HC1, (filter_between_ext r1 r2 j (nlive es (S j)) es 0%nat); [lia|].
+        intros x Hx. unfold r2, its2. rewrite (cnt_aset name st0 j (citers c1) x (r2_names _ _ HR1) Hs0).
+        unfold move, bump, r1.
+        destruct (Nat.eqb_spec x j); [lia|]. destruct (Nat.eqb_spec x st0); [lia|reflexivity]. }
+    destruct Hcn as (cs3 & st3 & Hcn).
+    exact (i_next_small f2 h' hd' pl' zs' p1 c2 cs3 st3 Hf2le Hw' Hin2 Hrf2 Hcn). }
   rewrite En. reflexivity.
 Qed.
 
@@ -392,6 +396,15 @@ Theorem first_cost : forall h ch, wf_hist h ->
     i_first_f f1 f2 (reach ch h) = i_first (reach ch h) /\
     exists r, i_first (reach ch h) = Ok r.
 Proof.
-  intros h ch Hwf. destruct (R_first_cost ch _ _ (R_reach h ch Hwf)) as (f1 & f2 & H1 & H2 & H3).
+  intros h ch Hwf. destruct (R_first_cost ch _ _ (R_reach h ch Hwf)) as (f1 & f2 & H1 & _ & H2 & H3).
   exists f1, f2. auto.
+Qed.
+
+(* no iterator open (the situation of every First the LRU cache calls): one iteration *)
+Theorem closed_first_cost : forall h ch, wf_hist h -> open_iters h = [] ->
+  i_first_f 0 1 (reach ch h) = i_first (reach ch h) /\ exists r, i_first (reach ch h) = Ok r.
+Proof.
+  intros h ch Hwf Hopen. destruct (closed_no_garbage h ch Hwf Hopen) as (_ & Hp & _).
+  destruct (R_first_cost ch _ _ (R_reach h ch Hwf)) as (f1 & f2 & H1 & H1' & H2 & H3).
+  rewrite Hp in H1. assert (f1 = 0%nat) by lia. assert (f2 = 1%nat) by lia. subst f1 f2. auto.
 Qed.
